@@ -237,3 +237,18 @@ Definition chk_rsa_pkcs1_decode (c : value * option (list Z)) : bool :=
 
 Definition chk_rsa_pkcs8_import (c : bytes * option (list Z)) : bool :=
   let '(d, got) := c in option_eqb zlist_eqb (rsa_pkcs8_import d) got.
+
+(* export_private_key('openssh') of a key object whose comment is an option (None for a key without
+   comment, whatever file it was read from) *)
+Definition chk_openssh_export_key (c : bytes * kparams * option bytes * bytes * bytes) : bool :=
+  let '(check, p, cm, pub, got) := c in
+  zlist_eqb (openssh_encode kparams enc_fields dummy_bs dummy_kdf dummy_encrypt check p (comment_field cm) pub None) got.
+
+(* _pbes2_pbkdf2: observed (key size used, PRF OID used) or None (KeyEncryptionError) *)
+Definition chk_pbkdf2_params (c : list (list Z) * Z * list value * option (Z * list Z)) : bool :=
+  let '(prfs, dks, params, got) := c in
+  match pbkdf2_params (in_algs prfs) dks params, got with
+  | Some (_, _, ks, prf), Some (ks', prf') => (ks =? ks') && zlist_eqb prf prf'
+  | None, None => true
+  | _, _ => false
+  end.
